@@ -41,7 +41,10 @@ func classifyIdx(err error) string {
 	if errors.Is(err, index.ErrNotFound) {
 		return "notfound"
 	}
-	return classify(err)
+	if c := classify(err); c != "eof-wrapped" {
+		return c
+	}
+	return "eof"
 }
 
 func offsStr(o []uint64) string {
